@@ -4,6 +4,7 @@ import FinamModel.Translated.Output__clear_data
 import FinamModel.Translated.Output_get_data
 import FinamModel.Translated.push_data_gate
 import FinamModel.Translated.Output_push_data
+import FinamModel.Translated.Output_info
 import FinamModel.Static
 import FinamModel.Props.C09
 import FinamModel.Props.C08
@@ -284,6 +285,17 @@ theorem tr_Output_push_data_unconnected {α} (ci : List (Nat × Option Int)) (da
     Tr.Output_push_data false ex ci data false tm t v = .ok (tm, data) := by
   unfold Tr.Output_push_data
   simp [pure, Except.pure]
+
+/-- **`Output.info`** (what `ConnectHelper` reads to learn whether an output's exchange is complete): the metadata is
+    handed out exactly when the output holds an info and — if it has targets — every end point that pinged it has
+    exchanged its metadata; otherwise a no-data error.  The same gate sits in front of `push_data` and `get_data`
+    (`tr_Output_push_data_outstanding`, `tr_Output_get_data`). -/
+theorem tr_Output_info (hasInfo hasTargets : Bool) (ex : Int) (ci : List (Nat × Option Int)) :
+    Tr.Output_info hasInfo hasTargets ex ci =
+      if hasInfo = true ∧ (hasTargets = false ∨ Py.len ci ≤ ex) then .ok () else .error .noData := by
+  unfold Tr.Output_info
+  cases hasInfo <;> cases hasTargets <;> simp [pure, Except.pure] <;>
+    (by_cases h : ex < Py.len ci <;> simp [h] <;> omega)
 
 structure CodeOut (α : Type) where
   data : List (Int × α)
